@@ -262,24 +262,24 @@ pub fn run(ctx: &mut Ctx) {
         "the daemon level is differential: descriptors the fixture itself leaves open with an empty session (the exit-event consumer handed to the worker's epoll set) are not counted".into(),
         "single-threaded scenarios; for sessions and daemons all threads are joined before the final snapshot".into(),
     ];
-    let n = ctx.tier.pick(6000u32, 150_000u32);
+    let n = ctx.tier.pick(6000u32, 600_000u32);
     let bes = (stream_case_strategy(), prop_oneof![1 => Just(u16::MAX), 1 => any::<u16>(), 1 => 0u16..8000]).prop_map(|(stream, cut)| BeCase { stream, cut });
     ctx.prop_check("backend_server_streams", n, bes, |ctx, c| run_be(ctx, c));
 
-    let n = ctx.tier.pick(3000u32, 100_000u32);
+    let n = ctx.tier.pick(3000u32, 400_000u32);
     let fss = (any::<bool>(), proptest::collection::vec(super::c06::br_chunk_strategy(), 1..=5), any::<u16>()).prop_map(|(reply_ack, chunks, cut)| FeSrvCase { stream: super::c06::BrStream { reply_ack, chunks }, cut });
     ctx.prop_check("frontend_request_server_streams", n, fss, |ctx, c| run_fe_srv(ctx, c));
 
-    let n = ctx.tier.pick(6000u32, 100_000u32);
+    let n = ctx.tier.pick(6000u32, 400_000u32);
     let target = crate::feops::op_strategy().prop_filter("call must await an answer", |op| !matches!(op, crate::feops::FeOp::SetLogFd | crate::feops::FeOp::SetLogBase { region: None, .. } | crate::feops::FeOp::SetProtocolFeatures(_)));
     let frs = (target, crate::feops::reply_vals(), any::<bool>(), proptest::collection::vec(prop_oneof![2 => (0u8..=3).prop_map(super::c06::RMut::Fds), 1 => super::c06::rmut_strategy()], 0..=2))
         .prop_map(|(op, rv, need_reply, muts)| super::c06::FeReplyCase { op, rv, need_reply, muts });
     ctx.prop_check("frontend_reply_paths", n, frs, |ctx, c| run_fe_reply(ctx, c));
 
-    let n = ctx.tier.pick(500u32, 20_000u32);
+    let n = ctx.tier.pick(500u32, 60_000u32);
     let ss = (super::c02::neg_strategy(), proptest::collection::vec(crate::feops::op_strategy(), 1..16)).prop_map(|(neg, ops)| super::c02::SessCase { neg, ops });
     ctx.prop_check("sessions", n, ss, |ctx, c| run_session(ctx, c));
 
-    let n = ctx.tier.pick(300u32, 10_000u32);
+    let n = ctx.tier.pick(300u32, 30_000u32);
     ctx.prop_check("daemon_sequences", n, super::c05d::daemon_case_strategy(), |ctx, c| run_daemon(ctx, c));
 }
